@@ -84,7 +84,7 @@ Proof.
   rewrite yield_node. unfold yields. cbn [flat_map yield app map].
   cbn [emit_operand] in He. unfold view_tok.
   destruct (Nat.eqb (tclass k) L_LiteralToken) eqn:EL.
-  - destruct (literal_value k) as [v|]; [|discriminate].
+  - destruct (literal_rejected k); [discriminate|]. destruct (literal_value k) as [v|]; [|discriminate].
     destruct v; try (injection He as <-; reflexivity).
     destruct (X2P.Base.F64.f_is_inf f); [discriminate|]. injection He as <-. reflexivity.
   - destruct (Nat.eqb (tclass k) L_CellIdentifierToken) eqn:EC; [|discriminate].
